@@ -5,6 +5,7 @@ mod common;
 mod model;
 mod par;
 mod rng;
+mod simlib;
 mod worker;
 
 use common::*;
@@ -12,6 +13,43 @@ use common::*;
 fn usage() -> ! {
     eprintln!("usage: vf check <id> [--tier quick|thorough] | vf replay <file> | vf selftest <name>");
     std::process::exit(2)
+}
+
+/// properties whose cases run the interpreter inside the harness process: isolated in workers
+const IN_PROCESS: &[&str] = &["C03", "C05", "C19"];
+
+fn replay_here(cfg: &Cfg, p: &str) -> Result<i32, Harness> {
+    let v: Violation = serde_json::from_str(&std::fs::read_to_string(p)?)?;
+    let got = match v.property.as_str() {
+        "C18" => checks::c18::replay(cfg, &v)?,
+        "C17" => checks::c17::replay(cfg, &v)?,
+        "C16" => checks::c16::replay(cfg, &v)?,
+        "C06" => checks::c06::replay(cfg, &v)?,
+        "C03" => checks::c03::replay(cfg, &v)?,
+        other => return Err(Harness(format!("no replay for {other}"))),
+    };
+    match got {
+        Some((class, detail)) => {
+            println!("VIOLATION property={} replay={} class={} detail={}", v.property, p, class, detail.replace('\n', " | "));
+            if class != v.class {
+                println!("note: recorded class was {}", v.class);
+            }
+            Ok(1)
+        }
+        None => {
+            println!("replay of {p}: property held (no violation reproduced)");
+            Ok(0)
+        }
+    }
+}
+
+fn big_stack<T: Send + 'static>(f: impl FnOnce() -> T + Send + 'static) -> T {
+    std::thread::Builder::new()
+        .stack_size(1 << 30)
+        .spawn(f)
+        .expect("spawn")
+        .join()
+        .unwrap_or_else(|_| std::process::exit(101))
 }
 
 fn run() -> Result<i32, Harness> {
@@ -32,37 +70,54 @@ fn run() -> Result<i32, Harness> {
             _ => pos.push(a.clone()),
         }
     }
-    println!("VERIF_SEED={} tier={} workers={}", cfg.seed, cfg.tier.name(), cfg.workers);
-    match pos.first().map(|s| s.as_str()) {
-        Some("check") => match pos.get(1).map(|s| s.as_str()) {
-            Some("C18") => checks::c18::check(&cfg),
-            Some("C17") => checks::c17::check(&cfg),
-            Some("C16") => checks::c16::check(&cfg),
-            Some("C06") => checks::c06::check(&cfg),
-            _ => usage(),
-        },
+    let arg = |i: usize| pos.get(i).map(|s| s.as_str());
+    match arg(0) {
+        Some("check") => {
+            println!("VERIF_SEED={} tier={} workers={}", cfg.seed, cfg.tier.name(), cfg.workers);
+            match arg(1) {
+                Some("C18") => checks::c18::check(&cfg),
+                Some("C17") => checks::c17::check(&cfg),
+                Some("C16") => checks::c16::check(&cfg),
+                Some("C06") => checks::c06::check(&cfg),
+                Some("C03") => checks::c03::check(&cfg),
+                _ => usage(),
+            }
+        }
+        // child side of in-process checks
+        Some("worker") => {
+            let id = arg(1).unwrap_or_else(|| usage()).to_string();
+            let num = |i: usize| -> u64 { arg(i).and_then(|s| s.parse().ok()).unwrap_or_else(|| usage()) };
+            let (start, stride, n) = (num(2), num(3), num(4));
+            big_stack(move || {
+                par::worker_loop(start, stride, n, |i| match id.as_str() {
+                    "C03" => checks::c03::case_out(&cfg, i),
+                    _ => usage(),
+                })
+            });
+            Ok(0)
+        }
+        Some("replay-inner") => {
+            let p = arg(1).unwrap_or_else(|| usage()).to_string();
+            big_stack(move || replay_here(&cfg, &p))
+        }
         Some("replay") => {
-            let p = pos.get(1).unwrap_or_else(|| usage());
+            let p = arg(1).unwrap_or_else(|| usage());
             let v: Violation = serde_json::from_str(&std::fs::read_to_string(p)?)?;
-            let got = match v.property.as_str() {
-                "C18" => checks::c18::replay(&cfg, &v)?,
-                "C17" => checks::c17::replay(&cfg, &v)?,
-                "C16" => checks::c16::replay(&cfg, &v)?,
-                "C06" => checks::c06::replay(&cfg, &v)?,
-                other => return Err(Harness(format!("no replay for {other}"))),
-            };
-            match got {
-                Some((class, detail)) => {
-                    println!("VIOLATION property={} replay={} class={} detail={}", v.property, p, class, detail);
-                    if class != v.class {
-                        println!("note: recorded class was {}", v.class);
+            if IN_PROCESS.contains(&v.property.as_str()) {
+                let (code, out, abnormal) = par::isolated(&["replay-inner", p], 60)?;
+                print!("{out}");
+                match abnormal {
+                    Some(how) => {
+                        println!(
+                            "VIOLATION property={} replay={} class={} detail=the replayed case {how} (stack or memory exhausted, or endless work before an output)",
+                            v.property, p, v.class
+                        );
+                        Ok(1)
                     }
-                    Ok(1)
+                    None => Ok(code.unwrap_or(2)),
                 }
-                None => {
-                    println!("replay of {p}: property held (no violation reproduced)");
-                    Ok(0)
-                }
+            } else {
+                replay_here(&cfg, p)
             }
         }
         _ => usage(),
